@@ -509,3 +509,55 @@ func VerifC04InputKey() {
 	vassert(o1 == f.F(a+"x") && o2 == o1, "Stream (concatenated) equals Invoke on keyed input")
 	vassert(o3 == want && o4 == want, "Collect and Transform see exactly the chunks that carry the key")
 }
+
+// (i) a transform node that consumes a header chunk and hands on the rest of its input reader; the rest fans out
+func VerifC04PartialReadFanOut() {
+	ctx := context.Background()
+	vcfg("fifo", 1)
+	vcfg("selectfirst", 1)
+	arrayBacked := vchoose("array", 2) == 1
+	h, a, b := vsymStr("h"), vsymStr("a"), vsymStr("b")
+	fu, fl := c04Fn{name: "up"}, c04Fn{name: "low"}
+	g := NewGraph[string, map[string]any]()
+	_ = g.AddLambdaNode("src", StreamableLambda(func(ctx context.Context, in string) (*schema.StreamReader[string], error) {
+		if arrayBacked {
+			return schema.StreamReaderFromArray([]string{h, a, b}), nil
+		}
+		sr, sw := schema.Pipe[string](3)
+		sw.Send(h, nil)
+		sw.Send(a, nil)
+		sw.Send(b, nil)
+		sw.Close()
+		return sr, nil
+	}))
+	_ = g.AddLambdaNode("strip", TransformableLambda(func(ctx context.Context, in *schema.StreamReader[string]) (*schema.StreamReader[string], error) {
+		_, _ = in.Recv() // the header
+		return in, nil
+	}))
+	_ = g.AddLambdaNode("up", fu.lambda(4), WithOutputKey("up"))   // collect-native
+	_ = g.AddLambdaNode("low", fl.lambda(8), WithOutputKey("low")) // transform-native
+	_ = g.AddEdge(START, "src")
+	_ = g.AddEdge("src", "strip")
+	_ = g.AddEdge("strip", "up")
+	_ = g.AddEdge("strip", "low")
+	_ = g.AddEdge("up", END)
+	_ = g.AddEdge("low", END)
+	r, err := g.Compile(ctx, WithNodeTriggerMode(AllPredecessor))
+	vassert(err == nil, "graph compiles")
+	want := map[string]string{"up": fu.F(a + b), "low": fl.F(a + b)}
+	sr, e := r.Stream(ctx, "go")
+	vassert(e == nil, "Stream starts")
+	acc := map[string]string{}
+	for i := 0; i < 16; i++ {
+		m, e := sr.Recv()
+		if e != nil {
+			vassert(e == io.EOF, "stream ends cleanly")
+			break
+		}
+		for k, v := range m {
+			acc[k] += v.(string)
+		}
+	}
+	sr.Close()
+	vassert(len(acc) == 2 && acc["up"] == want["up"] && acc["low"] == want["low"], "every copy of a partly consumed stream continues where the stream stands (array- and pipe-backed alike)")
+}
